@@ -248,9 +248,12 @@ def chkLmds (fs : List (String × String)) : String :=
               -- tolerance relative to the size of the terms that are summed (cancellation-safe)
               let W := DMat.ofFn (divCols (post V.get s.get) lam.get)
               let mu := lmdsMuD dist lm
-              let termScale := (List.finRange n).foldl (fun acc x => (List.finRange d).foldl (fun acc i =>
-                  maxR acc (sumFin nl fun a => absR (W.get a i) *
-                    absR (dist.get x (lm a) * dist.get x (lm a) - mu.get a))) acc) (maxR 1 (maxAbs Ym))
+              -- the implementation's δ² − μ carries rounding of the size of the largest δ² / μ, also where the exact
+              -- difference vanishes: the scale of the summed terms is Σ_a |W a i| · scaleD
+              let scaleD := (List.finRange n).foldl (fun acc x => (List.finRange nl).foldl (fun acc a =>
+                  maxR acc (maxR (absR (dist.get x (lm a) * dist.get x (lm a))) (absR (mu.get a)))) acc) 1
+              let termScale := (List.finRange d).foldl (fun acc i =>
+                  maxR acc ((sumFin nl fun a => absR (W.get a i)) * scaleD)) (maxR 1 (maxAbs Ym))
               ("ok", (cmpMat Yi Ym (tol30 * termScale)).1)
         let distTok := match ptsO with
           | some pts => " " ++ distVerdict n Y pts (condOf lam)
@@ -305,8 +308,10 @@ def chkLisomap (fs : List (String × String)) : String :=
             match finiteMat? n d Y with
             | none => ("ok", "nonfinite")
             | some Yi =>
-              let termScale := (List.finRange n).foldl (fun acc x => (List.finRange d).foldl (fun acc i =>
-                  maxR acc ((sumFin nl fun a => absR (Bm.get a x) * absR (V.get a i)) / absR (q.get i))) acc) (maxR 1 (maxAbs Ym))
+              -- likewise the implementation's B carries rounding of the size of its largest entry everywhere
+              let scaleB := maxR 1 (maxAbs Bm)
+              let termScale := (List.finRange d).foldl (fun acc i =>
+                  maxR acc ((sumFin nl fun a => absR (V.get a i)) * scaleB / absR (q.get i))) (maxR 1 (maxAbs Ym))
               ("ok", (cmpMat Yi Ym (tol30 * termScale)).1)
         s!"model={model} pre={pre} root={if qOk then "ok" else "bad"} {eig} post={post}"
       | _, _, _, _ => "bad-case:obs")
